@@ -42,8 +42,9 @@ ASSUMPTIONS = [
     "in half of the 'seq' cases Tor announces the controller's own accepted SETCONFs (CONF_CHANGED echo, after the 250 OK "
     "or - like Tor versions that send events synchronously - before it); 'seq' cases also contain CONF_CHANGED events for "
     "changes by another controller: the view then follows Tor, a pending local change stays as the application left it and "
-    "is what the next save delivers; no further in-place edit is generated on such an option until it is saved or "
-    "re-assigned (reads return Tor's list, so the target would be unspecified, like leniency L)",
+    "is what the next save delivers; further in-place edits of such an option are made only through the list object the "
+    "application already holds from its pending edit (that object is the pending value); edits through a fresh read are "
+    "not generated (it returns Tor's list, so the target would be unspecified, like leniency L)",
     "in-place mutation of an option that also has a pending whole-value assignment is not generated (DESIGN C10 L)",
     "comma-list options are judged on the wire form only: one joined value or one item per element (DESIGN C10 L)",
     "an option whose pending value equals what Tor already holds may or may not be named by the SETCONF",
@@ -79,7 +80,7 @@ FLOORS = {
               "reads_compared": 1300, "second_save_checks": 600, "midack_edits": 80, "inplace_ops": 500,
               "escaped_values_decoded": 80, "assigned_from_other_option": 150, "overlapping_saves": 120,
               "overlap_outcomes_checked": 50, "invalid_assignments": 100, "invalid_assignments_on_pending_option": 25,
-              "foreign_events": 150, "foreign_events_on_pending_option": 40, "crlf_values_decoded": 40,
+              "foreign_events": 150, "foreign_events_on_pending_option": 40, "crlf_values_decoded": 40, "held_object_edits": 20,
               "reach:txtorcon.torconfig:TorConfig.save": 1500,
               "reach:txtorcon.torconfig:TorConfig.mark_unsaved": 500,
               "reach:txtorcon.torconfig:TorConfig._save_completed": 650,
@@ -455,9 +456,14 @@ def gen_edit(rnd, m, exclude_assigned_inflight=()):
         listy = k != "scalar"
         pend = m.pending.get(n)
         if listy and rnd.random() < 0.7:
+            if pend and pend[0] == "inplace" and n in m.shadow and n not in exclude_assigned_inflight:
+                # a CONF_CHANGED replaced the view while this option's in-place edit is pending: the application goes
+                # on editing the list object it holds - that object IS the pending value
+                meth, args = gen_inplace(rnd, m, n)
+                return {"op": "inplace", "name": CT.anycase(rnd, n), "opt": n, "method": meth, "args": args, "held": True}
             if (pend and pend[0] == "assign") or n in exclude_assigned_inflight or n in m.shadow:
-                continue                      # leniency L: no in-place on a pending whole-value assignment, nor on an
-                #                               option whose view a CONF_CHANGED replaced while a local edit is pending
+                continue                      # leniency L: no in-place on a pending whole-value assignment (also when a
+                #                               CONF_CHANGED came meanwhile: a fresh read returns Tor's list, not the pending one)
             meth, args = gen_inplace(rnd, m, n)
             return {"op": "inplace", "name": CT.anycase(rnd, n), "opt": n, "method": meth, "args": args}
         if k == "commalist" and rnd.random() < 0.3:
@@ -530,7 +536,53 @@ def gen_alias_case(rnd, table):
     return steps
 
 
+def gen_repeat_overlap(rnd, table):
+    """4-5 back-to-back saves before Tor answers the first, one option going a, b, c, b[, c]: SETCONF lines that are
+    still queued repeat byte for byte; each save still owes Tor its own SETCONF"""
+    m = Model(table)
+    steps = []
+    for _ in range(rnd.choice([0, 0, 1, 2])):
+        st = gen_edit(rnd, m)
+        m.edit(st)
+        steps.append(st)
+    n = rnd.choice([x for x in m.order if m.kind(x) == "scalar" and m.types[x] != CT.BOOL])
+    vals, seen = [], {m.view[n]}
+    for _ in range(200):
+        v = _gen_assign_value(rnd, m.types[n])
+        if validated(m.types[n], v) not in seen:
+            seen.add(validated(m.types[n], v))
+            vals.append(v)
+        if len(vals) == 3:
+            break
+    if len(vals) < 3:
+        return None
+    a, b, c = vals
+    seq = rnd.choice([[a, b, c, b], [a, b, c, b], [a, b, a, b], [a, b, c, b, c], [a, b, c, a, b]])
+
+    def asg(v):
+        st = {"op": "assign", "name": CT.anycase(rnd, n), "opt": n, "value": v}
+        m.edit(st)
+        return st
+    steps.append(asg(seq[0]))
+    saves, snaps = [], []
+    allok = rnd.random() < 0.7
+    for i in range(len(seq)):
+        snaps.append(dict(m.pending))
+        eds = [asg(seq[i + 1])] if i + 1 < len(seq) else []
+        saves.append({"reply": "ok" if allok else rnd.choice(["ok", "ok", 513]), "edits_after": eds})
+    steps.append({"op": "overlap", "saves": saves})
+    for sv, snap in zip(saves, snaps):
+        if sv["reply"] == "ok":
+            m.ack(snap)
+    steps.append({"op": "save", "reply": "ok"})
+    return steps
+
+
 def gen_overlap_case(rnd, table):
+    if rnd.random() < 0.15:
+        steps = gen_repeat_overlap(rnd, table)
+        if steps:
+            return steps
     m = Model(table)
     steps = []
 
@@ -643,6 +695,13 @@ def gen_foreign_event(rnd, m, table):
         opts = [rnd.choice(table)]
     items = []
     for o in opts:
+        pv = m.pending.get(o["name"])
+        if pv and pv[0] == "inplace" and isinstance(pv[1], list) and pv[1] and rnd.random() < 0.4 \
+                and set(vfeat(pv[1]).split("+")) <= {"", "zero-or-false-element"}:
+            # the other controller made the very change that is pending here
+            w = wire(pv[1])
+            items += [[o["name"], ",".join(w)]] if CT.kind_of(o["type"]) == "commalist" else [[o["name"], v] for v in w]
+            continue
         vals = CT.gen_values(rnd, o["type"], rnd.choice(["unset", "single", "multi", "multi"]))
         if CT.kind_of(o["type"]) == "commalist" and not vals:
             vals = CT.gen_values(rnd, o["type"], "single")
@@ -703,6 +762,14 @@ def gen_case(rnd, mode):
             st = gen_foreign_event(rnd, m, table)
             m.event(st["items"])
             steps.append(st)
+            cands = [n for n in sorted({k for k, _ in st["items"]})
+                     if n in m.shadow and m.pending[n][0] == "inplace"]
+            if cands and rnd.random() < 0.7:
+                n = rnd.choice(cands)
+                meth, args = gen_inplace(rnd, m, n)
+                st = {"op": "inplace", "name": CT.anycase(rnd, n), "opt": n, "method": meth, "args": args, "held": True}
+                m.edit(st)
+                steps.append(st)
         else:
             st = gen_assign_from(rnd, m) if rnd.random() < 0.06 else None
             st = st or gen_edit(rnd, m)
@@ -765,6 +832,7 @@ class Run(object):
         self.rejected_before = False
         self.decoded = 0
         self.overlap_tag = None
+        self.held = {}               # option -> the list object the application got at its last in-place edit
         self.evented = set()         # options that had a pending local change when a CONF_CHANGED named them
         self.failed_assign = set()   # options that had a pending change when an assignment to them failed validation
         self.other = None            # a second, never edited TorConfig over the same table (source of values)
@@ -818,7 +886,12 @@ class Run(object):
             elif st["op"] == "assign":
                 setattr(cfg, st["name"], list(st["value"]) if isinstance(st["value"], list) else st["value"])
             else:
-                lst = getattr(cfg, st["name"])
+                if st.get("held") and st["opt"] in self.held:
+                    lst = self.held[st["opt"]]          # the object obtained at the previous in-place edit
+                    self.rec.count("held_object_edits")
+                else:
+                    lst = getattr(cfg, st["name"])
+                self.held[st["opt"]] = lst
                 a = st["args"]
                 meth = st["method"]
                 if meth == "setitem":
@@ -1073,7 +1146,9 @@ class Run(object):
                 n = ed["opt"]
                 if any(w == wire(mm.pending[n][1]) and ser != mm.pending[n][2] for w, ser in carried.get(n, [])):
                     again = True      # assigned / edited back to a value an outstanding SETCONF carries
-        if again:
+        if len(saves) >= 4:
+            cls = "overlapping-saves+queued-setconf-repeats"
+        elif again:
             cls = "overlapping-saves+value-in-flight-assigned-again"
         else:
             cls = "overlapping-saves" + ("+a-save-rejected" if any(sv["reply"] != "ok" for sv in saves) else "") + \
